@@ -771,6 +771,30 @@ class Class(Node):
         return ComponentRef.from_tuple(tuple(reversed(names[:-1])))
 
     def _extend(self, other: "Class") -> None:
+        # Own content of a class that is present in both trees. One of the two is
+        # normally the empty placeholder package created for a `within` clause, so
+        # take over whatever the other definition declares and this one does not.
+        for attr in ("imports", "symbols", "functions"):
+            own = getattr(self, attr)
+            for key, value in getattr(other, attr).items():
+                if key not in own:
+                    own[key] = value
+        for attr in (
+            "extends",
+            "equations",
+            "initial_equations",
+            "statements",
+            "initial_statements",
+            "annotation",
+            "comment",
+        ):
+            if not getattr(self, attr):
+                setattr(self, attr, getattr(other, attr))
+        for attr in ("encapsulated", "partial", "final"):
+            setattr(self, attr, getattr(self, attr) or getattr(other, attr))
+        if self.type in ("", "package") and other.type:
+            self.type = other.type
+
         for class_name in other.classes.keys():
             if class_name in self.classes.keys():
                 self.classes[class_name]._extend(other.classes[class_name])
